@@ -51,7 +51,7 @@ func (u *Unit) reg(name, desc string, writes []int, f func(fx *FX, st *State, c 
 }
 
 func seqOfBytes(fx *FX, st *State, s VSlice) T {
-	return app(SSeq, "view", sel(st.H, s.Ref), s.Off, s.Len)
+	return app(SSeq, "view", sel(fx.rH(st, s.Ref), s.Ref), s.Off, s.Len)
 }
 
 // freshBytes allocates a fresh byte slice whose contents are the sequence s.
@@ -117,9 +117,9 @@ func (u *Unit) registerModels() {
 			box := fx.allocObj(st, "poolbox", nil)
 			tag := num(u.typeTag(et))
 			if pt, ok := et.Underlying().(*types.Pointer); ok {
-				obj := fx.fresh("ref_pooled", SInt)
-				fx.assume(tTrue, and(gt(obj, num(0)), not(sel(st.Alloc, obj))))
-				fx.nonNil[obj.S] = true
+				obj := fx.newRef()
+				delete(fx.knownFresh, obj.S) // pooled, not fresh: ownership is tracked by the Pooled/Released ghost sets
+				fx.assume(tTrue, not(sel(st.Alloc, obj)))
 				st.Alloc = fx.def("alloc", sto(st.Alloc, obj, tTrue))
 				st.Pooled = fx.def("pooled", sto(st.Pooled, obj, tTrue))
 				fx.storeLeaves(st, box, num(0), et, []T{obj, num(0)})
@@ -128,7 +128,9 @@ func (u *Unit) registerModels() {
 					hdr := fx.loadLeaves(st, obj, num(0), pt.Elem())
 					fx.assume(tTrue, leafFacts(pt.Elem(), hdr))
 					back := hdr[0]
-					fx.assume(tTrue, or(eq(back, num(0)), and(not(sel(st.Alloc, back)), not(eq(back, obj)), not(eq(back, box)))))
+					bid := fx.newRef()
+					delete(fx.knownFresh, bid.S)
+					fx.assume(tTrue, or(eq(back, num(0)), and(not(sel(st.Alloc, back)), eq(back, bid))))
 					st.Alloc = fx.def("alloc", ite(eq(back, num(0)), st.Alloc, sto(st.Alloc, back, tTrue)))
 					st.Pooled = fx.def("pooled", ite(eq(back, num(0)), st.Pooled, sto(st.Pooled, back, tTrue)))
 				}
